@@ -288,6 +288,7 @@ func (c *Ctx) finish(verifDir string, seed int, wall float64, explanation string
 		"trusted_base":        trusted,
 		"notes":               c.Notes,
 		"inlined_helpers":     append([]string{}, c.w.Inlined...),
+		"inliner_gave_up":     c.w.InlineFailure,
 		"renamed_functions":   append([]string{}, c.w.Renamed...),
 	}
 	ev := evidence{PropertyID: c.Prop, Tier: c.Tier, Seed: seed, Level: "other", Coverage: cov,
@@ -301,6 +302,9 @@ func (c *Ctx) finish(verifDir string, seed int, wall float64, explanation string
 	if err := os.WriteFile(filepath.Join(evDir, c.Prop+".json"), b, 0o644); err != nil {
 		fmt.Printf("VIOLATION property=%s replay=%s\n  what cannot write evidence: %v\n", c.Prop, "-", err)
 		return 1
+	}
+	if c.w.InlineFailure != "" {
+		fmt.Printf("%s note: the helper inliner gave up (%s): the program was analysed as written\n", c.Prop, c.w.InlineFailure)
 	}
 	if len(c.w.Inlined) > 0 {
 		fmt.Printf("%s note: %d helper(s) that are not part of the pinned tree and have a single call site were analysed inlined into their callers: %s\n", c.Prop, len(c.w.Inlined), strings.Join(c.w.Inlined, "; "))
